@@ -31,6 +31,9 @@ impl Chunk {
         NUM_LIVE_CHUNKS.fetch_add(1, Ordering::Relaxed);
         NUM_LIVE_BYTES.fetch_add(storage.len(), Ordering::Relaxed);
 
+        #[cfg(woodpile_verif)]
+        crate::verif::chunk_created(storage.as_ptr() as usize, storage.len());
+
         Chunk {
             storage: NonNull::from(Box::leak(storage)),
         }
@@ -60,6 +63,9 @@ impl Drop for Chunk {
         for i in 0..capacity {
             unsafe { std::ptr::write_volatile(&mut storage[i] as *mut _ as *mut u8, b'\xFC') };
         }
+
+        #[cfg(woodpile_verif)]
+        crate::verif::chunk_dropped(storage.as_ptr() as usize, capacity);
 
         std::mem::drop(storage);
 
